@@ -28,7 +28,6 @@ use oq3_syntax::ast as synast; // Syntactic AST
 
 use crate::with_scope;
 
-use crate::utils::type_name_of; // for debugging
 
 // traits
 use synast::{HasArgList, HasName, HasTextNode};
@@ -1215,11 +1214,15 @@ fn designator_to_asg(
         }
         Some(synast::Expr::Identifier(identifier)) => {
             let (sym, typ) = lookup_identifier(&identifier, context);
+            let sym = match sym {
+                Ok(sym) => sym,
+                // The identifier is not declared. `UndefVarError` has been logged.
+                Err(_) => return None,
+            };
             if typ.is_const() {
-                let const_value = context.get_const_value(sym.unwrap());
-                let width = match u32::try_from(const_value.unwrap()) {
-                    Ok(width) => width,
-                    Err(_) => {
+                let width = match context.get_const_value(sym).map(u32::try_from) {
+                    Some(Ok(width)) => width,
+                    _ => {
                         context.insert_error(InvalidDesignatorError, &identifier);
                         // It's not clear what value to substitute for the width if we don't have a valid one.
                         // We choose zero.
@@ -1228,10 +1231,16 @@ fn designator_to_asg(
                 };
                 Some(width)
             } else {
+                // A designator must be a compile-time constant.
+                context.insert_error(ConstIntegerError, &identifier);
                 None
             }
         }
-        Some(expr) => panic!("Unsupported designator type: {:?}", type_name_of(expr)),
+        Some(expr) => {
+            // Other expressions (unary minus, arithmetic, ...) are not evaluated.
+            context.insert_error(ConstIntegerError, &expr);
+            None
+        }
         None => None,
     }
 }
